@@ -127,6 +127,14 @@ func items(tier string) []item {
 	for _, f := range []int{fHTLC, fBL, fACC} {
 		gate([]int{f}, false, 4)
 	}
+	// two of the three sporks, both orders
+	for _, a := range []int{fHTLC, fBL, fACC} {
+		for _, b := range []int{fHTLC, fBL, fACC} {
+			if a != b {
+				gate([]int{a, b}, false, 4)
+			}
+		}
+	}
 	if tier == "thorough" {
 		// all 6 activation orders x creation order (same as / reverse of the activation order) x distance between two
 		// activations 1..5 momentums (1..3: the windows [E-2,E+1] of different sporks overlap; 4, 5: they do not)
